@@ -141,6 +141,8 @@ def eval_images_doc(doc, mode="fresh"):
 
 NEVR = {"p": ("pkg-p", "0:1.0-1"), "q": ("q-lib", "2:3.1-4.el7")}
 SRPMS = {k: "%s-%s.src" % v for k, v in NEVR.items()}
+# how the document spells the source package q (both in the binary tables and in the src table): zero-padded epoch + '.rpm'
+SPELLED = {"p": SRPMS["p"], "q": "q-lib-02:3.1-4.el7.src.rpm"}
 
 
 def rpms_variant_layouts():
@@ -164,7 +166,7 @@ def rpms_doc(layouts):
             cell = man.setdefault(variant, {}).setdefault(arch, {})
             for s in lay[arch]:
                 name, evr = NEVR[s]
-                cell[SRPMS[s]] = {
+                cell[SPELLED[s]] = {
                     "%s-%s.%s" % (name, evr, arch): {"path": "%s/%s/os/Packages/%s.%s.rpm" % (variant, arch, s, arch),
                                                      "sigkey": "ABCDEF12", "type": "package"},
                     "%s-debuginfo-%s.%s" % (name, evr, arch): {"path": "%s/%s/debug/%s.rpm" % (variant, arch, s),
@@ -173,8 +175,13 @@ def rpms_doc(layouts):
         if lay["src"] is not None:
             tab = man.setdefault(variant, {}).setdefault("src", {})
             for s in lay["src"]:
-                tab[SRPMS[s]] = {"path": "%s/source/SRPMS/%s.src.rpm" % (variant, s), "sigkey": "ABCDEF12"}
+                tab[SPELLED[s]] = {"path": "%s/source/SRPMS/%s.src.rpm" % (variant, s), "sigkey": "ABCDEF12"}
     return {"header": {"version": "0.3"}, "payload": {"compose": dict(COMPOSE), "manifest": man}}
+
+
+def _canon(nevra):
+    from mc.models import nvra
+    return nvra.canonical(nvra.split_nevra(nevra))
 
 
 def rpms_expected(doc):
@@ -187,13 +194,13 @@ def rpms_expected(doc):
             if arch in SRC_KEYS:
                 continue
             for srpm, rpms in srpms.items():
-                cell = out.setdefault(variant, {}).setdefault(arch, {}).setdefault(srpm, {})
+                cell = out.setdefault(variant, {}).setdefault(arch, {}).setdefault(_canon(srpm), {})
                 for nevra, d in rpms.items():
                     cell[nevra] = {"path": d["path"], "sigkey": d["sigkey"].lower() if d["sigkey"] else None,
                                    "category": "binary" if d["type"] == "package" else d["type"]}
                 if srpm in src:
                     used.add(srpm)
-                    cell[srpm] = {"path": src[srpm]["path"], "sigkey": src[srpm]["sigkey"].lower(), "category": "source"}
+                    cell[_canon(srpm)] = {"path": src[srpm]["path"], "sigkey": src[srpm]["sigkey"].lower(), "category": "source"}
         unreferenced += len(set(src) - used)
     return out, unreferenced
 
